@@ -128,5 +128,6 @@ Full(gob) == {Case("full", g, "*", "full", SetAll(BaseV(g, 4), OwnRows(g), gob))
 
 \* top-level values that are not objects
 TopLevel == { Case("top", "IRI", "top", "iri", I1), Case("top", "ItemCollection", "top", "list-mixed", ListOf(<<I1, Note1, Person1>>)),
-              Case("top", "ItemCollection", "top", "list2-iri", ListOf(<<I1, I2>>)) }
+              Case("top", "ItemCollection", "top", "list2-iri", ListOf(<<I1, I2>>)),
+              Case("top", "IRIs", "top", "iris2", [k |-> "iris", e |-> <<I1.iri, I2.iri>>]) }
 =============================================================================
